@@ -12,7 +12,7 @@ COL_WIDTH = 6.25  # default portrait col_width (8.5 - 2.25)
 def make_table(heights, groups=None, *, ndata=2, fonts=None, sizes=None, subline=None, page_by_levels=0,
                new_page=False, pageby_row=None, pageby_header=None, header="explicit", footnote=None, source=None,
                nrow=10, placements=None, tall_cols=None, title=False, group_first=True, rel_widths=None, shared=None,
-               reverse_group_cols=False):
+               reverse_group_cols=False, size_pattern=None):
     """Deterministic builder.
     heights: list of target line counts per row.
     groups: list (one per page_by level) of per-row values; subline: per-row values or None.
@@ -47,8 +47,12 @@ def make_table(heights, groups=None, *, ndata=2, fonts=None, sizes=None, subline
     for i, k in enumerate(heights):
         tall = (tall_cols[i] if tall_cols else i) % ndata
         hk = k
+        row_size = size_pattern[i % len(size_pattern)] if size_pattern else None
         for j in range(ndata):
             tag = f"r{i}c{j}"
+            if row_size is not None:
+                sizes = list(sizes)
+                sizes[j] = row_size
             sh = shared.get(f"{i},{j}") if shared else None
             if sh is not None and j > 0:
                 t = sh            # the same long text reused in several cells (no coordinate tag)
@@ -77,7 +81,12 @@ def make_table(heights, groups=None, *, ndata=2, fonts=None, sizes=None, subline
         body["pageby_header"] = pageby_header
     if rel_widths:
         body["col_rel_width"] = [rel[data_cols.index(c)] if c in data_cols else 1 for c in cols]
-    if any(f != 1 for f in fonts) or any(s != 9 for s in sizes):
+    if size_pattern:
+        # a short per-row pattern (matrix with fewer rows than the table, recycled down the rows)
+        body["text_font_size"] = [[sz] * len(cols) for sz in size_pattern]
+        if any(f != 1 for f in fonts):
+            body["text_font"] = [fonts[data_cols.index(c)] if c in data_cols else 1 for c in cols]
+    elif any(f != 1 for f in fonts) or any(s != 9 for s in sizes):
         # per-column vectors indexed by ORIGINAL column position
         fvec, svec = [], []
         for c in cols:
@@ -206,6 +215,9 @@ def pag_recipe(draw, *, fonts=False, strategies=("plain", "page_by", "page_by_ne
             s = [9] * ndata
     groups = draw(nested_groups(n, levels, capacity, dividers=dividers, nulls=nulls)) if levels else None
     rel = shared = None
+    size_pattern = None
+    if fonts and n >= 3 and draw(st.integers(0, 9)) < 3:
+        size_pattern = [draw(st.sampled_from([7, 9, 9, 12, 16])) for _ in range(draw(st.integers(2, 3)))]
     if widths and ndata >= 2 and draw(st.integers(0, 9)) < 4:
         rel = [draw(st.sampled_from([1, 1, 2, 3, 4])) for _ in range(ndata)]
         if not fonts or draw(st.booleans()):
@@ -230,6 +242,7 @@ def pag_recipe(draw, *, fonts=False, strategies=("plain", "page_by", "page_by_ne
                      new_page=new_page, pageby_row=pbr, pageby_header=pbh, header=header, footnote=footnote,
                      source=source, nrow=nrow, placements=pl, title=draw(st.booleans()),
                      tall_cols=[draw(st.integers(0, 2)) for _ in range(n)], group_first=draw(st.booleans()),
-                     rel_widths=rel, shared=shared, reverse_group_cols=(levels >= 2 and draw(st.integers(0, 9)) < 3))
+                     rel_widths=rel, shared=shared, reverse_group_cols=(levels >= 2 and draw(st.integers(0, 9)) < 3),
+                     size_pattern=size_pattern)
     rec["strategy"] = strat
     return rec
